@@ -499,6 +499,15 @@ def run_target_function(
         # execute the transaction and yield output states
         yield from sevm.run_message(ex, message, path)
 
+        # this transaction was explored by a private SEVM: report its bounded loops here,
+        # otherwise a loop cut inside an invariant target would go unnoticed
+        if sevm.logs.bounded_loops:
+            warn_code(
+                LOOP_BOUND,
+                f"{fun_info.sig}: paths have not been fully explored due to the loop unrolling bound: {args.loop}",
+            )
+            debug("\n".join(jumpid_str(x) for x in sevm.logs.bounded_loops))
+
     finally:
         reset(solver)
 
